@@ -319,3 +319,106 @@ pub fn replay(a: &Args) -> i32 {
     print_summary(&json!({"evaluations": evaluations, "rows": rows, "mismatches": mismatches}));
     0
 }
+
+
+/// C12 at the level of the generated server code: a request future that is dropped (what the
+/// network does when the caller abandons the call) must take the user's handler with it.
+#[derive(Clone, Default)]
+struct CancelImpl {
+    started: Arc<std::sync::atomic::AtomicU64>,
+    dropped: Arc<std::sync::atomic::AtomicU64>,
+}
+
+struct HandlerGuard(Arc<std::sync::atomic::AtomicU64>);
+impl Drop for HandlerGuard {
+    fn drop(&mut self) {
+        self.0.fetch_add(1, std::sync::atomic::Ordering::SeqCst);
+    }
+}
+
+impl CancelImpl {
+    async fn park<T>(&self) -> T {
+        let _guard = HandlerGuard(self.dropped.clone());
+        self.started.fetch_add(1, std::sync::atomic::Ordering::SeqCst);
+        futures::future::pending::<T>().await
+    }
+}
+
+#[anemo::async_trait]
+impl gen::root_greeter::greeter_server::Greeter for CancelImpl {
+    async fn say_hello(&self, _r: Request<Msg>) -> Result<Response<Msg>, Status> { self.park().await }
+    async fn say(&self, _r: Request<Msg>) -> Result<Response<Msg>, Status> { self.park().await }
+}
+#[anemo::async_trait]
+impl gen::root_greet::greet_server::Greet for CancelImpl {
+    async fn say_hello(&self, _r: Request<Msg>) -> Result<Response<Msg>, Status> { self.park().await }
+    async fn x(&self, _r: Request<Msg>) -> Result<Response<Bytes>, Status> { self.park().await }
+}
+#[anemo::async_trait]
+impl gen::c17_probe::probe_server::Probe for CancelImpl {
+    async fn unit_b(&self, _r: Request<gen::Unit>) -> Result<Response<gen::Unit>, Status> { self.park().await }
+    async fn unit_j(&self, _r: Request<gen::Unit>) -> Result<Response<gen::Unit>, Status> { self.park().await }
+    async fn opt_b(&self, _r: Request<Option<Msg>>) -> Result<Response<Option<Msg>>, Status> { self.park().await }
+    async fn opt_j(&self, _r: Request<Option<Msg>>) -> Result<Response<Option<Msg>>, Status> { self.park().await }
+}
+
+pub fn cancel(_a: &Args) -> i32 {
+    let imp = CancelImpl::default();
+    let router = Router::new()
+        .add_rpc_service(gen::root_greeter::greeter_server::GreeterServer::new(imp.clone()))
+        .add_rpc_service(gen::root_greet::greet_server::GreetServer::new(imp.clone()))
+        .add_rpc_service(gen::c17_probe::probe_server::ProbeServer::new(imp.clone()));
+    let m = Msg { a: 1, s: "x".into() };
+    let bin = |v: &Msg| Bytes::from(bincode::serialize(v).unwrap());
+    let routes: Vec<(&str, Bytes)> = vec![
+        ("/Greeter/SayHello", bin(&m)),
+        ("/Greeter/Say", Bytes::from(serde_json::to_vec(&m).unwrap())),
+        ("/Greet/SayHello", bin(&m)),
+        ("/Greet/x", bin(&m)),
+        ("/c17.Probe/UnitB", Bytes::new()),
+        ("/c17.Probe/UnitJ", Bytes::from_static(b"null")),
+        ("/c17.Probe/OptB", Bytes::from(bincode::serialize(&Some(m.clone())).unwrap())),
+        ("/c17.Probe/OptJ", Bytes::from_static(b"null")),
+    ];
+    let mut mismatches: Vec<Value> = Vec::new();
+    let mut evaluations = 0u64;
+    for flavor in ["current_thread", "multi_thread"] {
+        let rt = if flavor == "current_thread" {
+            tokio::runtime::Builder::new_current_thread().enable_all().build().unwrap()
+        } else {
+            tokio::runtime::Builder::new_multi_thread().worker_threads(2).enable_all().build().unwrap()
+        };
+        for (path, body) in &routes {
+            evaluations += 1;
+            let (s0, d0) = (imp.started.load(std::sync::atomic::Ordering::SeqCst), imp.dropped.load(std::sync::atomic::Ordering::SeqCst));
+            let mut r = router.clone();
+            let req = Request::new(body.clone()).with_route(*path);
+            let (started, dropped_after) = rt.block_on(async {
+                let mut fut = Box::pin(r.call(req));
+                // drive the request until the handler runs (or it answers, which it must not)
+                let answered = tokio::select! {
+                    res = &mut fut => Some(res.map(|r| r.status().to_u16())),
+                    _ = async {
+                        for _ in 0..200 {
+                            if imp.started.load(std::sync::atomic::Ordering::SeqCst) > s0 { break; }
+                            tokio::time::sleep(std::time::Duration::from_millis(1)).await;
+                        }
+                    } => None,
+                };
+                let started = imp.started.load(std::sync::atomic::Ordering::SeqCst) > s0 && answered.is_none();
+                // the caller abandons: the network drops the request's future
+                drop(fut);
+                tokio::time::sleep(std::time::Duration::from_millis(30)).await;
+                (started, imp.dropped.load(std::sync::atomic::Ordering::SeqCst) > d0)
+            });
+            if !started {
+                mismatches.push(json!({"what": format!("{path} ({flavor}): the handler never started")}));
+            } else if !dropped_after {
+                mismatches.push(json!({"what": format!("{path} ({flavor}): the request's future was dropped but the handler is still alive 30 ms later")}));
+            }
+        }
+    }
+    mismatches.truncate(6);
+    print_summary(&json!({"evaluations": evaluations, "rows": routes.len() * 2, "mismatches": mismatches}));
+    0
+}
